@@ -66,7 +66,8 @@ pub(crate) mod verif_array {
             M_COMPUTED_NULL => (1, &*null_v as *const Value),
             M_COMPUTED_BOOL => (1, &*bool_v as *const Value),
             M_COMPUTED_ERR => (0, &*null_v as *const Value),
-            _ => (2, &*null_v as *const Value),
+            // a literal operand: if the body routes it through the evaluator it evaluates to itself
+            _ => (2, &*coll_node as *const Value),
         };
         ev::register(&coll_node, cclass, cout);
         let pn = ev::register(&pred_node, 1, &*null_v as *const Value);
@@ -147,12 +148,15 @@ pub(crate) mod verif_array {
             (Err(_), Err(())) => {}
             _ => assert!(false, "all/some: error vs value differs from the spec (null/empty => false, non-collection => error, first error propagates)"),
         }
-        assert!(ev::log_len() == k, "all/some: evaluation log length differs (short-circuit at the first deciding element; each expression at most once)");
+        // a LITERAL collection operand may or may not have been passed through the evaluator first (it evaluates to
+        // itself either way; unobservable): accept one leading evaluation of node 0 against the outer data
+        let off = if !computed && ev::log_len() == k + 1 && ev::log_at(0).0 == 0 && unsafe { ev::LOG_DATA_FP[0] } == outer_fp { 1 } else { 0 };
+        assert!(ev::log_len() == k + off, "all/some: evaluation log length differs (short-circuit at the first deciding element; each expression at most once)");
         let mut q = 0;
         while q < k {
-            let (node, _) = ev::log_at(q);
+            let (node, _) = ev::log_at(q + off);
             assert!(node == log_node[q], "all/some: evaluation order differs from the spec");
-            assert!(unsafe { ev::LOG_DATA_FP[q] } == log_fp[q], "all/some: wrong data: literal elements are evaluated against the outer data, the predicate against the element's value");
+            assert!(unsafe { ev::LOG_DATA_FP[q + off] } == log_fp[q], "all/some: wrong data: literal elements are evaluated against the outer data, the predicate against the element's value");
             q += 1;
         }
     }
@@ -261,6 +265,89 @@ pub(crate) mod verif_array {
     //@ desc="some: truth value, error cases, short-circuit evaluation log and scoping (literal-array elements evaluated against the outer data, computed elements passed as data UNPARSED, predicate sees the element) equal the spec"
     quant_harness!(k_c14_some_cnew_3_e7_p7, false, 1, 3, 7, 7, 6);
 //@END-GENERATED-QUANT
+
+    // ---- all / some over a STRING collection: one element per Unicode character (Chars by contract)
+    pub(crate) fn body_quant_string(is_all: bool, l: usize, ppat: u32) {
+        use crate::verif_support::chars_contract as cc;
+        cc::reset(l);
+        let p: [u64; 3] = [kani::any(), kani::any(), kani::any()];
+        let data = MD::new(Value::Bool(true));
+        let pvals = [MD::new(num(p[0])), MD::new(num(p[1])), MD::new(num(p[2]))];
+        let null_v = MD::new(Value::Null);
+        let coll_node = MD::new(Value::String(String::from(cc::real_text(l))));
+        let pred_node = MD::new(Value::Null);
+        ev::register(&coll_node, 2, &*null_v as *const Value);
+        let pn = ev::register(&pred_node, 1, &*null_v as *const Value);
+        ev::set_multi(pn);
+        ev::set_multi_outcome_num(0, if ppat & 1 == 1 { 1 } else { 0 }, &*pvals[0] as *const Value, p[0]);
+        ev::set_multi_outcome_num(1, if (ppat >> 1) & 1 == 1 { 1 } else { 0 }, &*pvals[1] as *const Value, p[1]);
+        ev::set_multi_outcome_num(2, if (ppat >> 2) & 1 == 1 { 1 } else { 0 }, &*pvals[2] as *const Value, p[2]);
+        let mut args: Vec<&Value> = Vec::with_capacity(2);
+        args.push(&*coll_node);
+        args.push(&*pred_node);
+        let args = MD::new(args);
+        let r = MD::new(if is_all { all(&data, &args) } else { some(&data, &args) });
+        kani::cover!(true, "returned");
+        // spec: the elements are the characters, in order; empty string => false
+        let mut want: Result<bool, ()> = if l == 0 { Ok(false) } else { Ok(is_all) };
+        let mut k = 0;
+        let mut j = 0;
+        while j < l {
+            k += 1;
+            if (ppat >> j) & 1 == 0 {
+                want = Err(());
+                break;
+            }
+            let t = p[j] != 0;
+            if is_all && !t {
+                want = Ok(false);
+                break;
+            }
+            if !is_all && t {
+                want = Ok(true);
+                break;
+            }
+            j += 1;
+        }
+        match (&*r, want) {
+            (Ok(Value::Bool(b)), Ok(w)) => assert!(*b == w, "all/some over a string: wrong truth value"),
+            (Err(_), Err(())) => {}
+            _ => assert!(false, "all/some over a string: error vs value differs from the spec"),
+        }
+        assert!(ev::log_len() == k, "all/some over a string: the predicate is evaluated once per CHARACTER until the deciding one");
+        let mut q = 0;
+        while q < k {
+            let mut one = String::with_capacity(4);
+            one.push(cc::abstract_char(q));
+            let expect = ev::fingerprint(&Value::String(one));
+            assert!(ev::log_at(q).0 == pn && unsafe { ev::LOG_DATA_FP[q] } == expect, "all/some over a string: the predicate sees one Unicode character at a time, in order");
+            q += 1;
+        }
+    }
+    macro_rules! quant_string_harness {
+        ($name:ident, $is_all:expr, $l:expr, $ppat:expr) => {
+            #[cfg_attr(kani, kani::proof)]
+            #[cfg_attr(kani, kani::unwind(6))]
+            #[cfg_attr(kani, kani::stub(<serde_json::Value as std::clone::Clone>::clone, crate::verif_support::value_clone_shallow))]
+            #[cfg_attr(kani, kani::stub(crate::value::Parsed::from_value, crate::value::Parsed::verif_from_value_stub))]
+            #[cfg_attr(kani, kani::stub(crate::value::Parsed::evaluate, crate::value::Parsed::verif_evaluate_stub))]
+            #[cfg_attr(kani, kani::stub(<std::str::Chars<'_> as std::iter::Iterator>::next, crate::verif_support::chars_contract::CharsContract::next))]
+            #[cfg_attr(kani, kani::stub(<std::str::Chars<'_> as std::iter::Iterator>::advance_by, crate::verif_support::chars_contract::CharsContract::advance_by))]
+            #[cfg_attr(kani, kani::stub(std::fmt::format, crate::verif_support::fmt_stub))]
+            pub(crate) fn $name() {
+                body_quant_string($is_all, $l, $ppat);
+            }
+        };
+    }
+    //@ob name=C14.all.string.0 harness=k_c14_all_string_0 props=C14,C04,C01 strength=bounded bound="the empty string" fns=op::array::all stubs=6 timeout=400 cutdrop=2 group=heavy
+    //@ desc="all over an empty string is false"
+    quant_string_harness!(k_c14_all_string_0, true, 0, 0);
+    //@ob name=C14.all.string.2 harness=k_c14_all_string_2 props=C14,C04,C06,C01 tier=off strength=bounded bound="a 2-character string (1-byte and 4-byte characters; Chars by contract); predicate answers symbolic" fns=op::array::all stubs=6 timeout=600 cutdrop=2 group=heavy
+    //@ desc="all over a string: one element per Unicode character, in order, predicate sees the character; true iff every answer is truthy; short-circuit at the first falsy"
+    quant_string_harness!(k_c14_all_string_2, true, 2, 3);
+    //@ob name=C14.some.string.2 harness=k_c14_some_string_2 props=C14,C04,C06,C01 tier=off strength=bounded bound="a 2-character string (1-byte and 4-byte characters; Chars by contract); predicate answers symbolic" fns=op::array::some stubs=6 timeout=600 cutdrop=2 group=heavy
+    //@ desc="some over a string: one element per Unicode character; true iff some answer is truthy; short-circuit at the first truthy"
+    quant_string_harness!(k_c14_some_string_2, false, 2, 3);
 
     // ---- none == !some (some by contract: an arbitrary Result<Bool>)
     pub(crate) static mut SOME_PLAN: u8 = 0;
